@@ -220,7 +220,18 @@ func BuildRequest(r vfs.Req) (*http.Request, context.CancelFunc, error) {
 	if r.IfNoneMatch != "" {
 		hdr("If-None-Match", r.IfNoneMatch)
 	}
-	fmt.Fprintf(&b, "Content-Length: %d\r\n\r\n%s", len(r.Body), r.Body)
+	if r.Chunked && len(r.Body) > 0 {
+		b.WriteString("Transfer-Encoding: chunked\r\n\r\n")
+		k := (len(r.Body) + 1) / 2
+		for _, part := range []string{r.Body[:k], r.Body[k:]} {
+			if part != "" {
+				fmt.Fprintf(&b, "%x\r\n%s\r\n", len(part), part)
+			}
+		}
+		b.WriteString("0\r\n\r\n")
+	} else {
+		fmt.Fprintf(&b, "Content-Length: %d\r\n\r\n%s", len(r.Body), r.Body)
+	}
 	req, err := http.ReadRequest(bufio.NewReader(strings.NewReader(b.String())))
 	if err != nil {
 		return nil, nil, err
